@@ -289,7 +289,11 @@ Verdict HistEngine::exec_solvers(const Plan& plan, EventLog& log, Stats& st)
       give_input(so.s.get(), *probs[target]);
       // LocalNetwork::project_equations gives the regularisation again after every reset; a fresh object starts
       // from the same statement, so the reference never depends on what reset() does to an earlier min_x
-      if (so.all) so.s->min_x(); else { std::vector<int> sub = make_subset((uint64_t)s.arg(2), (int)s.arg(3), probs[target]->N); so.subset = sub; guarded([&](Val&) { so.s->min_x((int)sub.size(), sub.data()); }); }
+      // (C04 quantifies over reset(SAME input): there the statement is optional and half of the resets leave it out.
+      //  After a reset to ANOTHER input it is always made: AdjEnvelope materialises the implicit "all unknowns" list
+      //  for the size of the problem at hand and keeps it across reset(), so a bare reset to a problem of another size
+      //  is outside what the property promises - see DESIGN.md section 10.5)
+      if (so.all) { if (which != 0 || s.arg(3) % 2 == 0) so.s->min_x(); } else { std::vector<int> sub = make_subset((uint64_t)s.arg(2), (int)s.arg(3), probs[target]->N); so.subset = sub; guarded([&](Val&) { so.s->min_x((int)sub.size(), sub.data()); }); }
       so.failed_reg = false;
       log.line("%d o%d reset(problem %d)", n, o, target); st.add("ops.reset"); st.nontrivial = true;
       st.state("hist", fmt("%s/reset-%s/asked%d", an, which == 0 ? "same" : which == 1 ? "other" : "back", std::min(so.asked, 2)));
